@@ -143,6 +143,12 @@ def check_C10(tier, seed):
     wd = workdir("C10")
     seqs = fsm_sequences(res, wd, 3 if tier == "quick" else 4)
     insts = docfam.doc_instances(seqs, seed)
+    # "any query string" includes the well-formed ones: the random / systematic universe of valid-looking queries (variables shared between
+    # filters, tags, folds, recursion, coercions) goes through the same frontend under catch_unwind
+    import universe
+    rnd = universe.semantic_universe(tier, seed + 1000)
+    for x in rnd: x["cls"] = dict(x.get("cls") or {}, family="valid_" + str((x.get("cls") or {}).get("family", "random")))
+    insts = universe.renumber(insts + rnd)
     obs = observe(insts, wd, "", seed)
     classes = {}; drift = 0; kinds = set()
     for inst, o in zip(insts, obs):
@@ -168,7 +174,7 @@ def check_C10(tier, seed):
     res.cov["distinct_nontrivial"] = sum(1 for k in classes)
     res.cov["rule"] = (f"every directive sequence of length <= {3 if tier == 'quick' else 4} that spec/DirectiveFSM.tla reaches (TLC enumerates the automaton and checks its invariants), rendered on an edge field, a property field and the root field; "
                        f"{len(docfam.MALFORMED)} malformed single directives at two positions; {len(docfam.SHAPES)} document shapes (operations, fragments, variable definitions, root selections, inline fragments, aliases, unterminated text); "
-                       f"{len(docfam.PARAMS)} edge-parameter literals at three positions; each parsed by the real frontend under catch_unwind. distinct non-trivial = distinct (family, outcome kind) classes observed")
+                       f"{len(docfam.PARAMS)} edge-parameter literals at three positions; {len(rnd)} well-formed queries of the semantic universe (random with shared variables, recursion / tag / hint / fold families); each parsed by the real frontend under catch_unwind. distinct non-trivial = distinct (family, outcome kind) classes observed")
     res.notes.update({"sequences": len(seqs), "outcome_classes": classes, "fsm_mismatches": drift})
     res.assumptions += ["below GraphQL token level (arbitrary bytes) is async-graphql-parser's territory and not enumerated"]
     return res
